@@ -36,7 +36,8 @@
           features protoc+fast   → ok fast,protoc emits=t
           features protoc        → ok protoc emits=f
           features fast+nosuch   → err
-          features all+nosuch    → ok fast,protoc emits=t      (the loop stops at "all")
+          features all+nosuch    → err                         (names after "all" are validated too)
+          features all+fast      → ok fast,protoc emits=t
     param <parameter>     the whole plugin parameter (`features=fast,paths=source_relative,Mx.proto=y/z`);
                           same answers as `features`; also `err` for unknown flags / bad `pool`, `paths`, `annotate_code`.
                           `param` with no argument = empty parameter.
@@ -110,15 +111,18 @@ def registered : List (String × Bool) := [("fast", true), ("protoc", false)]
 def mapSet (m : List (String × Bool)) (k : String) (v : Bool) : List (String × Bool) :=
   (k, v) :: m.filter (fun e => e.1 != k)
 
-/-- The first loop of `findFeatures`: "all" replaces the set by every registered feature and stops
-    the loop; an unregistered name is an error (the payload is the offending name). -/
-def collect (reg : List (String × Bool)) : List String → List (String × Bool) → Except String (List (String × Bool))
-  | [], acc => .ok acc
-  | n :: ns, acc =>
-    if n = "all" then .ok reg
+/-- The first loop of `findFeatures`: every name is looked at. "all" sets the flag `all` and the loop
+    goes on (`continue`); any other name that is not registered is an error wherever it stands (the
+    payload is the offending name); a registered name is entered into `required`. After the loop:
+    `if all { required = defaultFeatures }`. -/
+def collect (reg : List (String × Bool)) : List String → Bool → List (String × Bool) →
+    Except String (List (String × Bool))
+  | [], all, acc => .ok (if all then reg else acc)
+  | n :: ns, all, acc =>
+    if n = "all" then collect reg ns true acc
     else match reg.lookup n with
       | none => .error n
-      | some g => collect reg ns (mapSet acc n g)
+      | some g => collect reg ns all (mapSet acc n g)
 
 def insertByName (x : String × Bool) : List (String × Bool) → List (String × Bool)
   | [] => [x]
@@ -133,7 +137,7 @@ def sortByName : List (String × Bool) → List (String × Bool)
     `mapOrder` is the iteration order of `for name, feat := range required`. -/
 def findFeatures (reg : List (String × Bool)) (names : List String)
     (mapOrder : List (String × Bool) → List (String × Bool)) : Except String (List (String × Bool)) :=
-  match collect reg names [] with
+  match collect reg names false [] with
   | .error e => .error e
   | .ok required => .ok (sortByName (mapOrder required))
 
